@@ -440,8 +440,15 @@ def run_vecnorm(case):
                               f"returns kept={'returns' in vn.__dict__}")
         if os.path.getsize(path) == 0:
             save_notes.append("save() wrote an empty file")
+        if save_notes:      # the original wrapper is damaged: nothing further can be compared on it
+            return {"events": events, "save_notes": save_notes, "load_failed": True, "chan_norm": chan_flags(case)}
         venv2 = DummyVecEnv([mk(sc) for sc in case["scripts"]])
-        loaded = VecNormalize.load(path, venv2)
+        try:
+            loaded = VecNormalize.load(path, venv2)
+            _ = (loaded.ret_rms, loaded.clip_obs, loaded.training)
+        except Exception as e:  # noqa: BLE001 - what save() wrote cannot be loaded
+            save_notes.append(f"VecNormalize.load of what save() wrote raises {type(e).__name__}: {e}")
+            return {"events": events, "save_notes": save_notes, "load_failed": True, "chan_norm": chan_flags(case)}
         # ---- load attaches the given venv and the loaded wrapper works on it
         if loaded.__dict__.get("venv") is not venv2 or loaded.__dict__.get("num_envs") != n:
             save_notes.append(f"load(path, venv) did not attach the venv: venv={loaded.__dict__.get('venv')!r} num_envs={loaded.__dict__.get('num_envs')!r}")
@@ -580,7 +587,7 @@ def chan_stats(fields, kind, nchan):
 
 
 def exprs_vecnorm(case, impl):
-    if "late_norm_obs" in impl:
+    if "late_norm_obs" in impl or impl.get("load_failed"):
         return ["true"]
     chans = impl["chan_norm"]
     n = len(case["scripts"])
@@ -623,6 +630,8 @@ def compare_vecnorm(case, impl, mv):
         if impl["late_norm_obs"]:
             return [(LATE_NORM_OBS_SIG, "VecNormalize constructed with norm_obs=False has no obs_rms: after norm_obs is switched on the next reset/step fails: " + impl["late_norm_obs"])]
         return []
+    if impl.get("load_failed"):
+        return [("oracle-save-load-wrapper", "; ".join(impl["save_notes"]))]
     probs = []
     chans = impl["chan_norm"]
     nchan = len(chans)
@@ -802,7 +811,7 @@ COMPARE = {"rms": compare_rms, "vecnorm": compare_vecnorm,
 
 
 def nontrivial(case, impl):
-    if "late_norm_obs" in impl or "raised" in impl or "ctor" in impl:
+    if "late_norm_obs" in impl or "raised" in impl or "ctor" in impl or impl.get("load_failed"):
         return False
     if case["kind"] == "rms":
         return len(case["split_a"]) >= 2 and case["split_a"] != case["split_b"]
@@ -827,7 +836,17 @@ def run_cases(chk, cases):
             impls.append({"raised": f"{type(e).__name__}: {e} (at {where})", "traceback": traceback.format_exc()[-2500:]})
     exprs, spans = [], []
     for c, im in zip(cases, impls):
-        e = ["true"] if "raised" in im else EXPRS[c["kind"]](c, im)
+        if "raised" in im:
+            e = ["true"]
+        else:
+            try:
+                e = EXPRS[c["kind"]](c, im)
+            except Exception as ex:  # noqa: BLE001 - e.g. NaN / inf among the returned values: they cannot be sent to the model
+                import traceback
+
+                im["raised"] = f"the implementation returned values that are not finite numbers ({type(ex).__name__}: {ex})"
+                im["traceback"] = traceback.format_exc()[-2500:]
+                e = ["true"]
         spans.append((len(exprs), len(exprs) + len(e)))
         exprs += e
     vals = common.coq_eval_many(chk.pid, HEADER, exprs, shard=60, procs=4)
